@@ -161,6 +161,8 @@ func checkC03(w *World, c *Check, tier string) {
 							gbad = fmt.Sprintf("inverted guard: key %q is written only when %s says the field is unset", st.names, g.desc)
 						} else if g.signOnly {
 							gbad = fmt.Sprintf("sign-sensitive emptiness guard %s on %s (type %s): negative values are never stored", g.desc, key, typeName(f.Type))
+						} else if miss := partialGuard(g, s, f.Index); miss != "" {
+							gbad = fmt.Sprintf("partial guard: key %q is stored only when %s holds, which ignores the sub-field(s) %s of %s: a value with only those set is dropped", st.names, g.desc, miss, key)
 						}
 					}
 				}
